@@ -259,8 +259,11 @@ def gen_falsy_leaf(rng, kinds):
         return ["cmp", rng.choice(["==", "!="]), ["v", vi, pp + [["a", "t"]]], ["tup", []]]
     if k < 0.8:
         return ["truth", rng.choice([flag, ["v", vi, pp + [["a", "t"]]], ["v", vi, pp + [["a", "s"]]], ["v", vi, [["a", "a"]]]])]
-    if k < 0.88:
+    if k < 0.84:
         return ["cmp", rng.choice(list(OPS)), ["v", vi, [["a", rng.choice("ab")]]], ["lit", 0]]
+    if k < 0.88:
+        # a falsy VALUE as the argument of a predicate
+        return ["fpred", "f_vge", [["v", vi, [["a", rng.choice("ab")]]], ["lit", rng.choice([0, 0, 1])]]]
     if k < 0.95:
         # a dict entry that is present and holds None / a falsy value
         dm = ["v", vi, pp + [["a", "d"], ["i", "m"]]]
@@ -314,6 +317,9 @@ def gen_leaf(rng, kinds, o):
         kk = rng.random()
         vi = rng.randrange(len(kinds))
         vj = rng.randrange(len(kinds))
+        if kk < 0.08:
+            # a predicate over VALUES: mapped expressions (possibly falsy ones) as arguments
+            return ["fpred", "f_vge", [gen_num(rng, kinds, o, allow_lit=False), gen_num(rng, kinds, o)]]
         if kk < 0.3:
             return ["fpred", "f_gt", [["v", vi, []], ["lit", rng.randint(0, 3)]]]
         if kk < 0.5:
